@@ -29,7 +29,9 @@ Check(t) ==
     IF AsSet(t.nv) # Params(e) THEN <<"necessary-variables", "", 0>>
     ELSE IF "pe" \notin DOMAIN t THEN <<"ok", "", 0>>
     ELSE LET pe == t.pe  bound == DOMAIN pe.bind IN
-    IF pe.exc # "" THEN <<"partial-evaluation-failed:" \o pe.exc, IF SingleBd(e) THEN "single_bd_point_side" ELSE "", 0>>
+    \* (checked first: an acknowledged deviation of the same object must not hide a wrong normal field)
+    IF "normals" \in DOMAIN pe /\ \E i \in DOMAIN pe.normals : ~SeqClose(pe.normals[i], pe.normals_full[i], 3) THEN <<"normal-after-binding", "", 0>>
+    ELSE IF pe.exc # "" THEN <<"partial-evaluation-failed:" \o pe.exc, IF SingleBd(e) THEN "single_bd_point_side" ELSE "", 0>>
     ELSE IF AsSet(pe.nv) # Params(e) \ bound THEN <<"necessary-variables-after-binding", IF SingleBd(e) THEN "single_bd_point_side" ELSE "", 0>>
     ELSE IF ~pe.orig_same THEN <<"original-domain-changed", "", 0>>
     ELSE IF ~HasNode(e, "prod") /\ ~pe.stable THEN <<"earlier-partial-evaluation-changed-by-a-later-one", "", 0>>
